@@ -25,15 +25,28 @@ def _spec(name):
 
 def _fn(world, cq, name):
     r = world.method(cq, name)
+    fn = r[2]
     if r[0].mod in (HID, SER):
         from ..drv import expand_method
         # serial.py: full alias propagation (guards such as
         # `standalone = not in_transaction` read as the original);
         # hid.py: parameters of inlined helpers only (its rules name locals)
-        return r[0], expand_method(
+        fn = expand_method(
             world, world.cls(cq), r[2],
             aliases=True if r[0].mod == SER else "params")
-    return r[0], r[2]
+    # a status -> constructor table reads as the if-chain it abbreviates
+    from ..unroll import expand_table_lookups, class_table_resolver
+    from ..inline import acopy
+    from ..normal import set_parents
+    if any(isinstance(n, ast.Attribute) and n.attr == "get"
+           for n in ast.walk(fn)):
+        fnx = acopy(fn)
+        rt, nn = class_table_resolver(world, world.cls(cq), r[0].mod)
+        if expand_table_lookups(fnx, rt, nn):
+            ast.fix_missing_locations(fnx)
+            set_parents(fnx)
+            fn = fnx
+    return r[0], fn
 
 
 def check(run, repo, world):
